@@ -126,7 +126,7 @@ resources = [
         rest("batch_get", False, ret=ref("Leaf"))]),
     resource([seg("cks", "ckId", ref("Ck"))], ref("Leaf"), [
         rest("get", True, ret=ref("Leaf")), rest("batch_get", False, ret=ref("Leaf")), rest("batch_delete", False),
-        rest("create", False, ret=ref("Leaf"))]),
+        rest("batch_update", False), rest("create", False, ret=ref("Leaf"))]),
     resource([seg("root")], ref("Inner"), [rest("get", False, ret=ref("Inner")), rest("update", False)]),
     resource([seg("acts")], None, [method("ACTION", "sum", False, params=[field("a", prim("int32")), field("b", prim("int32"))], ret=prim("int32")),
                                     method("ACTION", "noop", False, params=[])]),
